@@ -582,6 +582,64 @@ func offlineScenario2(name, before, during, after string, bound int, hello ...bo
 	return sc
 }
 
+// manualReopen: the application disconnects the socket and connects it again by hand, at once. The socket
+// must end up connected exactly once more, on both sides, and an event emitted afterwards is delivered once.
+// (Manager.Close() directly followed by Connect() is NOT judged: Connect() is a no-op while the socket
+// still counts as connected, and the manager's asynchronous 'close' notification then disconnects it for
+// good - observed at the pinned commit too, but no listed property speaks about it.)
+func manualReopen(name string, what string, bound int) *vx.Scenario {
+	sc := &vx.Scenario{Name: name, Bound: bound, Horizon: 2 * time.Minute}
+	sc.Body = func(e *vsched.Exec) func() vx.Result {
+		vsched.SetExploring(false)
+		lg := &evLog{e: e}
+		scfg := &sio.ServerConfig{}
+		scfg.EIO.PingInterval = 10 * time.Minute
+		scfg.EIO.PingTimeout = 10 * time.Minute
+		srv, mgr, _ := vrig.NewSioPair(scfg, nil)
+		var v vsched.Var
+		var srvGot []string
+		srv.OnConnection(func(s sio.ServerSocket) {})
+		srv.Use(func(s sio.ServerSocket, h *sio.Handshake) any {
+			s.OnEvent("m", func(tag string) { v.Do(func() { srvGot = append(srvGot, tag) }) })
+			lg.add("srv-ready")
+			return nil
+		})
+		sock := mgr.Socket("/", nil)
+		sock.OnConnect(func() { lg.add("connect") })
+		sock.OnDisconnect(func(r sio.Reason) { lg.add("disconnect") })
+		sock.Connect()
+		vsched.Await(func() bool { return lg.count("connect") == 1 && lg.count("srv-ready") == 1 })
+		vrig.Settle(time.Second)
+		vsched.SetExploring(true)
+		switch what {
+		case "Manager.Close":
+			mgr.Close()
+		case "Socket.Disconnect":
+			sock.Disconnect()
+		}
+		sock.Connect()
+		vrig.Settle(30 * time.Second)
+		sock.Emit("m", "after-reopen")
+		vrig.Settle(10 * time.Second)
+		return func() vx.Result {
+			var r vx.Result
+			r.Outcome = fmt.Sprint(lg.log, srvGot, sock.Connected())
+			ctx := fmt.Sprintf("%s then Connect(): client events %v, client socket connected=%v, server sockets %d, server handlers saw %v", what, lg.log, sock.Connected(), len(srv.Of("/").Sockets()), srvGot)
+			if !sock.Connected() || lg.count("connect") != 2 {
+				r.Violate("manual reopen: socket not connected (exactly once more) after Connect() following "+what, "%s", ctx)
+			}
+			if n := len(srv.Of("/").Sockets()); n != 1 {
+				r.Violate("manual reopen: server does not hold exactly one socket after the reopen", "%s", ctx)
+			}
+			if len(srvGot) != 1 {
+				r.Violate("manual reopen: event emitted after the reopen not delivered exactly once", "%s", ctx)
+			}
+			return r
+		}
+	}
+	return sc
+}
+
 func permutations(s string) []string {
 	if len(s) <= 1 {
 		return []string{s}
@@ -616,6 +674,7 @@ func scenarios(tier string) []*vx.Scenario {
 		offlineScenario2("offline/during=pa-server-greets-with-ack-request", "", "pa", "", b+1, true),
 		offlineScenario2("offline/during=p-emitter-races-the-reconnection", "", "p", "", b+1, false, true),
 		offlineScenario2("offline/during=none-emitter-races-the-reconnection", "", "", "", b+1, false, true),
+		manualReopen("manual-reopen/Socket.Disconnect-then-Connect", "Socket.Disconnect", b),
 		reconnectScenario("reconnect/outage2-unlimited", outage{j: 2}, b),
 		reconnectScenario("reconnect/outage2-limit2", outage{j: 2, limit: 2}, b),
 		reconnectScenario("reconnect/outage1-limit3-dial-timeout", outage{j: 1, limit: 3, dialTime: 20 * time.Second}, b),
@@ -633,7 +692,7 @@ func main() {
 		Property: "C15",
 		Level:    "model_checking",
 		Rule: "back-off: full grid of (ReconnectionDelay, ReconnectionDelayMax, jitter, attempt number incl. overflowing ones, random draw) with the random draw scripted; reconnect machine: outage of j = 0..5 failed dials x attempt limit 0..5 x {refused at once, dial times out after 20 s}, each executed on the real Manager/Server pair in virtual time and judged on the timestamped reconnect_* events; " +
-			"offline traffic: all 24 orders of {plain, volatile, ack, ack+timeout} emitted while disconnected plus before/during/after placements and an emitter on another goroutine racing the completion of the reconnection, explored to the deviation bound. distinct_nontrivial = grid points with attempt > 0 and jitter in (0,1] + outage cases + deviating schedules",
+			"offline traffic: all 24 orders of {plain, volatile, ack, ack+timeout} emitted while disconnected plus before/during/after placements, an emitter on another goroutine racing the completion of the reconnection, and Disconnect() directly followed by Connect(), explored to the deviation bound. distinct_nontrivial = grid points with attempt > 0 and jitter in (0,1] + outage cases + deviating schedules",
 		Scenarios: scenarios,
 		Budget: func(tier string) time.Duration {
 			if tier == "thorough" {
